@@ -570,6 +570,8 @@ class Interp:
             if r == "builtins.enumerate":
                 return V("seq", items=[V("seq", items=[OPAQUE, self.elem(a0)])])
             return OPAQUE
+        if r == "builtins.abs" and a0.kind == "num":
+            return self.unop(c, "abs", lambda x: abs(x), a0)
         if r == "builtins.float" and a0.kind == "num":
             return num(a0.cls, False)
         if lib or mod == "numpy":
@@ -583,6 +585,10 @@ class Interp:
                 return self.unop(c, f"{mod}.log", _np_log, self._arr(a0))
             if name == "exp":
                 return self.unop(c, f"{mod}.exp", _np_exp, self._arr(a0))
+            if name == "log1p" and a0.kind == "num":
+                return self.unop(c, f"{mod}.log1p", lambda x: _np_log(1.0 + x) if x == x else x, self._arr(a0))
+            if name == "expm1" and a0.kind == "num":
+                return self.unop(c, f"{mod}.expm1", lambda x: (_np_exp(x) - 1.0) if x == x else x, self._arr(a0))
             if name == "reciprocal":
                 return self.unop(c, f"{mod}.reciprocal", _np_recip, self._arr(a0))
             if name in ("negative", "neg"):
